@@ -6,13 +6,16 @@
    Definitions only. *)
 From TL Require Import Lib.Base Lib.GenTypes Gen.IgnoreGen Model.PyStr.
 
+(* For every flag: true = read the behaviour from the source (Gen), false = what C04 demands.  After the fix: commits b7d1dc0,
+   71ade39, 9b79df3 the source variants of flags 2-6 below meet the specification themselves (the theorems cover both values
+   and rest on the generated facts; if the source regresses the generated layer changes and those proofs fail). *)
 Record iquirks := {
   q_splitlines_unicode : bool;   (* lines are numbered by str.splitlines (also breaks at \f \v FS GS RS NEL LS PS) *)
-  q_next_line_hash_only : bool;  (* ignore-next-line: marker needles and regex flag exactly as in the source *)
+  q_next_line_hash_only : bool;  (* ignore-next-line: marker needles, lowering and regex flag exactly as in the source *)
   q_file_hash_only : bool;       (* ignore-file: marker needles exactly as in the source *)
-  q_block_end_before : bool;     (* an ignore-end also suppresses matching violations located before the block *)
-  q_bare_line_unsupported : bool;(* bare `ignore` on a line: fallback as in the source (only `ignore-all`) *)
-  q_bare_file_unsupported : bool;(* bare `ignore-file`: fallback as in the source (False) *)
+  q_block_end_before : bool;     (* the ignore-end branch of the source, if it has one (Gen.block_end_cmp) *)
+  q_bare_line_unsupported : bool;(* bare `ignore` on a line: fallback as in the source (ignore-all / Gen.line_bare_suffixes) *)
+  q_bare_file_unsupported : bool;(* bare `ignore-file`: fallback as in the source (Gen.file_bare_general) *)
   q_start_rules_from_code : bool (* rule list of ignore-start parsed as in the source (case-sensitive, space form only) *)
 }.
 
@@ -92,7 +95,10 @@ Definition check_specific_rule_ignore (q : iquirks) (line rule_id : string) : bo
   | None =>
       match re_space (snd re_file_space) (fst re_file_space) line with
       | Some g => check_space_separated_rules g rule_id
-      | None => negb (q_bare_file_unsupported q)
+      | None =>
+          (* no rule list follows: the source's fallback / what C04 demands (bare ignore-file = all rules, unless a malformed bracket follows) *)
+          if q_bare_file_unsupported q then (if file_bare_general then check_general_ignore line else false)
+          else negb (containsb "ignore-file[" line)
       end
   end.
 
@@ -110,7 +116,13 @@ Definition check_specific_rule_in_line (q : iquirks) (code rule_id : string) : b
   | None =>
       match re_space (snd re_line_space) (fst re_line_space) code with
       | Some g => check_space_separated_rules g rule_id
-      | None => if q_bare_line_unsupported q then containsb ignore_all_needle (lower code) else true
+      | None =>
+          (* code.rstrip().lower(); the right strip cannot change the containment test (the needle has no white space) *)
+          let cl := lower (rstrip code) in
+          if q_bare_line_unsupported q then
+            containsb ignore_all_needle cl || existsb (fun sfx => suffixb sfx cl) line_bare_suffixes
+          else (* what C04 demands: the comment ends with the bare directive (or says ignore-all) *)
+            containsb "ignore-all" cl || existsb (fun sfx => suffixb sfx cl) ["thailint: ignore"; "design-lint: ignore"]
       end
   end.
 
@@ -148,7 +160,11 @@ Fixpoint block_scan (q : iquirks) (bl : list bline) (i v : nat) (rule_id : strin
       match b with
       | BStart rs => block_scan q rest (S i) v rule_id true rs
       | BEnd =>
-          if q_block_end_before q && in_block && cmp_nat block_end_cmp i v && rules_match_violation rules rule_id then true
+          if match block_end_cmp with
+             | Some c => q_block_end_before q && in_block && cmp_nat c i v && rules_match_violation rules rule_id
+             | None => false
+             end
+          then true
           else block_scan q rest (S i) v rule_id false []
       | BOther =>
           if (i =? v) && in_block then rules_match_violation rules rule_id
